@@ -215,6 +215,13 @@ class Prog:
             rec['link'] = (1,)
         return self.add(self.j(name, [target]), **rec)
 
+    def ctransfer(self, m, target, rs=None):
+        """a compressed jump / branch written out in the source with a label operand"""
+        if m in ('c.j', 'c.jal'):
+            return self.add(self.j(m, [target]), kind='transfer', target=target, cond=None, link=(1,) if m == 'c.jal' else (), c_source=True)
+        return self.add(self.j(m, [self.r(rs), target]), kind='transfer', target=target,
+                        cond=('beq' if m == 'c.beqz' else 'bne', rs, 0), link=(), c_source=True)
+
     def li(self, rd, value):
         return self.add(self.j('li', [self.r(rd), self.v(value)]), kind='li', rd=rd, value=value, literal=is_literal(value))
 
@@ -228,8 +235,8 @@ class Prog:
     def pack(self, fmt, value):
         return self.add(self.j('pack', [fmt, self.v(value)]), kind='pack', fmt=fmt, value=value)
 
-    def string(self, text):
-        return self.add('string %s' % text, kind='string', bytes=text.encode('utf-8'))
+    def string(self, text, expect=None):
+        return self.add('string %s' % text, kind='string', bytes=text.encode('utf-8') if expect is None else expect)
 
     def align(self, n):
         return self.add(self.j('align', [self.i(n)]), kind='align', n=n)
@@ -260,6 +267,10 @@ TRANSFER_FORMS = [
     ('jal', lambda p, t: p.jump('jal', t)),
     ('call', lambda p, t: p.jump('call', t)),
     ('tail', lambda p, t: p.jump('tail', t)),
+    ('c.j', lambda p, t: p.ctransfer('c.j', t)),
+    ('c.jal', lambda p, t: p.ctransfer('c.jal', t)),
+    ('c.beqz', lambda p, t: p.ctransfer('c.beqz', t, 8)),
+    ('c.bnez', lambda p, t: p.ctransfer('c.bnez', t, 15)),
 ]
 
 
@@ -385,6 +396,11 @@ ALPHABET_EXTRA = [
     ('swsp', lambda p, L: p.insn('sw', 2, 8, 12)),
     ('lui1', lambda p, L: p.insn('lui', 9, 1)),
     ('str7', lambda p, L: p.string('seven77')),
+    ('cjL', lambda p, L: p.ctransfer('c.j', L)),
+    ('cjalL', lambda p, L: p.ctransfer('c.jal', L)),
+    ('cbeqzL', lambda p, L: p.ctransfer('c.beqz', L, 9)),
+    ('cbnezL', lambda p, L: p.ctransfer('c.bnez', L, 14)),
+    ('strEsc', lambda p, L: p.string('a\\nb\\x41\\t', expect=b'a\nbA\t')),
     ('lg1', lambda p, L: p.data('longs', 7)),
     ('lg3', lambda p, L: p.data('longs', 1, -2, 3)),
     ('ll1', lambda p, L: p.data('longlongs', 5)),
@@ -813,7 +829,18 @@ def _enc_line(p, m, t, spelling):
     parts = []
     for i, (r, v) in enumerate(zip(roles, t)):
         isreg = (kinds[i] in ('r', "r'")) if kinds else (r in ('rd', 'rs1', 'rs2'))
-        parts.append(_regtext(v, spelling) if isreg else str(v))
+        pcrel = r in ('immB', 'immJ') or m in ('c.j', 'c.jal', 'c.beqz', 'c.bnez')     # a NAME there is a location (label-like), not an offset
+        if spelling == 'const' and not isreg and not pcrel and r not in ('pred', 'succ', 'aq', 'rl'):
+            # the operand named through a constant (docs: constants substitute transparently); defined right before the line
+            name = 'K%d_%d' % (len(p.recs), i)
+            p.const(name, v)
+            parts.append(name)
+        elif spelling == 'const' and isreg and 0 <= v < 32:
+            name = 'R%d_%d' % (len(p.recs), i)
+            p.add('%s = x%d' % (name, v), kind='const', name=name, value=v)
+            parts.append(name)
+        else:
+            parts.append(_regtext(v, 'x' if spelling == 'const' else spelling) if isreg else str(v))
     text = ('%s %s' % (m, ', '.join(parts))).strip()
     if m.startswith('c.'):
         p.add(text, kind='cinsn', m=m, ops=tuple(t), c_source=True)
